@@ -193,7 +193,7 @@ def check(world, tier):
     from . import C08, C02, C04, C07
     for (mod, cid, keys) in ((C08, "C08.a", ("size-is-windowsize",)), (C02, "C02.e", ("",)), (C04, "C04.a", ("timeout-operand",)),
                              (C07, "C07.a", ("read-timeout-before-worker", "read-timeout-not-stored", "channel-wait-unbounded"))):
-        r = mod.check(world, tier)
+        r = run_rule(mod, world, tier)
         for cl in r.clauses:
             if cl.id == cid:
                 bad = [f_ for f_ in cl.findings if any(k in f_.key for k in keys)]
